@@ -152,7 +152,7 @@ func (g *guide) candidates(maxReq int) []weighted {
 	}
 	for _, w := range e.workers {
 		switch w.state {
-		case "L", "H", "F":
+		case "L", "H", "F", "P":
 			c = append(c, weighted{8, fmt.Sprintf("step %d", w.id)})
 		case "D":
 			if g.rnd.Intn(40) == 0 {
@@ -161,7 +161,7 @@ func (g *guide) candidates(maxReq int) []weighted {
 		}
 	}
 	if e.tq.Stats().Pending > 0 {
-		c = append(c, weighted{7, "pop"})
+		c = append(c, weighted{7, "pop"}, weighted{2, "popq"})
 		if g.last == "none" {
 			c = append(c, weighted{10, "thaw"})
 		}
@@ -202,6 +202,10 @@ func (g *guide) candidates(maxReq int) []weighted {
 			case graphsync.Running:
 				if g.r.sig[id] == 2 {
 					c = append(c, weighted{4, fmt.Sprintf("upd %d %d %s", p, id, updPlans[g.rnd.Intn(len(updPlans))])})
+				}
+				if g.r.sig[id] == 3 {
+					// a further abort before the executor has looked at the first one
+					c = append(c, weighted{3, fmt.Sprintf("cancel %d %d", p, id)}, weighted{3, fmt.Sprintf("rcancel %d", id)})
 				}
 				c = append(c, weighted{2, fmt.Sprintf("cancel %d %d", p, id)}, weighted{2, fmt.Sprintf("rcancel %d", id)},
 					weighted{2, fmt.Sprintf("pause %d", id)}, weighted{2, fmt.Sprintf("upd %d %d %s", p, id, updPlans[g.rnd.Intn(len(updPlans))])},
@@ -269,7 +273,7 @@ func (g *guide) drain(budget int) {
 		}
 		if line == "" {
 			for _, w := range e.workers {
-				if w.state == "L" || w.state == "H" || w.state == "F" {
+				if w.state == "L" || w.state == "H" || w.state == "F" || w.state == "P" {
 					line = fmt.Sprintf("step %d", w.id)
 					break
 				}
@@ -341,7 +345,7 @@ func genStall(rnd *rand.Rand, i int) []string {
 		}
 	}()
 	limit := []int{100, 120, 180}[rnd.Intn(3)]
-	variant := rnd.Intn(15)
+	variant := rnd.Intn(18)
 	if variant == 8 || variant == 9 {
 		return genPoolStall(g, rnd, limit, variant == 8, false)
 	}
@@ -390,6 +394,15 @@ func genStall(rnd *rand.Rand, i int) []string {
 		for j := 0; j < 2+rnd.Intn(2); j++ {
 			g.do(fmt.Sprintf("upd 0 %d %s", q, []string{"o", "x"}[rnd.Intn(2)]))
 		}
+	case 15: // the stalled peer cancels twice while its executor waits for memory
+		g.do("cancel 0 0")
+		g.do("cancel 0 0")
+	case 16: // CancelResponse twice
+		g.do("rcancel 0")
+		g.do("rcancel 0")
+	case 17: // requestor cancel, then the responder cancels too
+		g.do("cancel 0 0")
+		g.do("rcancel 0")
 	case 12, 13: // the blocked send to the stalled peer fails: its streams are closed, its memory is released
 		// and the executor that waited for memory comes back
 		if variant == 13 {
